@@ -305,11 +305,21 @@ def column_relations(run, rng, pa, level, pred, data, ignore_na, lazy):
     scalar_relations(J, rng, pa, level, pred, data, ignore_na, lazy, obj)
 
     # R-nfc: n_failure_cases never changes the verdict; reports a subset
+    # (the options are combined with the element-wise or the vectorised
+    # variant of the check; the plain run of the same variant is the reference)
     k = rng.choice([1, 1, 2, 3])
     f = G.py_pred(pred)
-    K = observe(pd_schema(pa, level, data, [
-        _chk(pa, lambda s: s.map(f), ignore_na=ignore_na, n_failure_cases=k)]),
-        obj, lazy)
+    ew = rng.random() < 0.35
+    run.count("options-on:" + ("element_wise" if ew else "vectorised_map"))
+
+    def opt_chk(**opts):
+        if ew:
+            return _chk(pa, f, element_wise=True, ignore_na=ignore_na, **opts)
+        return _chk(pa, lambda s: s.map(f), ignore_na=ignore_na, **opts)
+    if ew:
+        B = A
+    K = observe(pd_schema(pa, level, data, [opt_chk(n_failure_cases=k)]),
+                obj, lazy)
     same_report = nfc_verdict(J, B, K, data, k, "")
     if same_report and B.verdict == "reject" and B.only_check \
             and not B.scalar and B.cells:
@@ -333,11 +343,14 @@ def column_relations(run, rng, pa, level, pred, data, ignore_na, lazy):
     if B.check_error or B.verdict == "exc":
         J.und("raise_warning-when-the-function-raises")
     else:
-        W = observe(pd_schema(pa, level, data, [
-            _chk(pa, lambda s: s.map(f), ignore_na=ignore_na,
-                 raise_warning=True)]), obj, lazy)
+        W = observe(pd_schema(pa, level, data, [opt_chk(raise_warning=True)]),
+                    obj, lazy)
         if warn_relation(J, B, W) and S.diff(before, S.snap(W.out.result)):
             J.bad("raise_warning-returned-object-differs-from-input", {})
+        if rng.random() < 0.4:
+            WK = observe(pd_schema(pa, level, data, [
+                opt_chk(raise_warning=True, n_failure_cases=k)]), obj, lazy)
+            warn_relation(J, B, WK, "", "raise_warning+n_failure_cases")
 
     if S.diff(before, S.snap(obj)):
         J.bad("check-modified-the-validated-object(C04)", {})
@@ -999,4 +1012,29 @@ def polars_relations(run, rng, pp, pred, data, ignore_na, lazy):
         elif (W.n_warn >= 1) != (P.verdict == "reject"):
             J.bad("raise_warning-warned-iff-failed-broken",
                   {"plain": P.brief(), "with_warning": W.brief()})
+    # single-bool outputs (docs/source/polars.md: 'a LazyFrame with a single
+    # boolean scalar', `.all()` style).  A Python bool output is accepted by
+    # the backend but not documented: its verdict is not judged, only that
+    # raise_warning relates to the plain run as for every check.
+    form = rng.choice(["lazyframe-scalar", "lazyframe-scalar", "python-bool"])
+    J.run.count(f"polars:scalar:form:{form}")
+    expr = nat if nat else (
+        lambda c: c.map_elements(f, return_dtype=pl.Boolean))
+
+    def sfn(d):
+        out = d.lazyframe.select(expr(pl.col(d.key)).all())
+        return out if form == "lazyframe-scalar" else bool(out.collect().item())
+    PS = observe_pl(sch(pp.Check(sfn, ignore_na=ignore_na)), obj, lazy)
+    if form == "lazyframe-scalar" and (ignore_na or not n_null):
+        J.ev("polars:scalar-output==all(f(x))")
+        if PS.verdict != ("accept" if exp_pass else "reject") or PS.check_error:
+            J.bad("scalar-output-verdict-differs",
+                  {"scalar_form": form, "expected_pass": exp_pass,
+                   "observed": PS.brief()})
+    else:
+        J.und("polars:scalar-output-verdict(python-bool-or-nulls-shown)")
+    if not (PS.check_error or PS.verdict == "exc"):
+        WS = observe_pl(sch(pp.Check(sfn, ignore_na=ignore_na,
+                                     raise_warning=True)), obj, lazy)
+        warn_relation(J, PS, WS, "polars:scalar-output:", {"scalar_form": form})
     return J
